@@ -139,6 +139,53 @@ def run(chk, model_ok=True):
                               f"{r[1]} (a panic, an undocumented exception or a call that never came back) instead of a value or a "
                               "documented exception",
                               {"kind": "oracle", "lines": [f"# {mode} discovery engine-id-length {ln_}"], "engine_id_len": ln_})
+    # (d) a stream of non-matching datagrams that outlasts the timeout (sync: each one is processed a little later than
+    # the last, one of them after the deadline; async: they keep waking the receive loop), and an encrypted message
+    # arriving at a session that has no privacy key: a value or a documented exception, and the call comes back while
+    # the stream is still running
+    from props import c18
+    import asyncio as _aio
+    drip = [(t, "s") for t in range(1, 10 * c18.T_TICKS)]            # one every tick for ten timeouts
+    # (sync, second pattern: a burst of non-matching datagrams every half millisecond across the deadline, so that one
+    #  of them is taken off the socket just before the deadline and dealt with just after it)
+    burst = [(c18.T_TICKS - 0.6 + k * 0.01, "s") for k in range(120)]
+    for peer in (e2e.Peer("v2c"), e2e.Peer("v3", auth=1, priv=0, auth_kt="localized")):
+        for mode in ("sync", "sync-burst", "async"):
+            if mode.startswith("sync"):
+                sched_ = drip if mode == "sync" else burst
+                got = e2e.run_guarded(lambda: c18.run_sync(peer, sched_), 30.0, (("exc", "Hang", True), 30.0, []))
+            else:
+                try:
+                    got = e2e.run_coro(c18.run_async_one(peer, drip), 30.0) or (("exc", "Hang", True), 30.0, [])
+                except BaseException as ex:  # noqa: BLE001
+                    got = (("exc", type(ex).__name__, isinstance(ex, Exception)), 0.0, [])
+            r, el = got[0], got[1]
+            n_e2e += 1
+            name = (r[1][2:] if r[1].startswith("PySnmp") else r[1]) if r[0] == "exc" else "value"
+            stream_s = 10 * c18.T_TICKS * c18.TICK
+            if r[0] == "exc" and (not r[2] or name not in DOCUMENTED or name == "Hang"):
+                chk.violation("oracle", f"{mode} get() on {peer.label} under a stream of non-matching datagrams: ended with {name} "
+                              "(a panic, an undocumented exception or no return at all)",
+                              {"kind": "oracle", "lines": [f"# {mode} {peer.label} stray stream"]})
+            elif el > stream_s - 0.5:
+                chk.violation("oracle", f"{mode} get() on {peer.label} (timeout {c18.T_TICKS * c18.TICK:.1f} s) came back only after {el:.1f} s, when the "
+                              f"{stream_s:.0f} s stream of non-matching datagrams had stopped: with a stream that does not stop it does not return",
+                              {"kind": "oracle", "lines": [f"# {mode} {peer.label} stray stream"]})
+    for auth in (0, 1):
+        peer = e2e.Peer("v3", auth=auth, priv=0, auth_kt="localized")
+        sx = sessions.Sess(env, peer, rng)
+        rec = sx.send("get", "1.3.6.1.2.1.1.1.0")
+        req = sx.conv.req
+        n_e2e += 1
+        if rec["result"][0] == "ok" and req and "request_id" in req:
+            st_ = peer.state
+            for flags in (3, 2, 7):
+                dg = ber.msg_v3(req["msg_id"], flags, st_.engine_id, st_.boots, st_.time, st_.user, bytes(12) if flags & 1 else b"",
+                                bytes(rng.getrandbits(8) for _ in range(8)), ber.OCT(bytes(rng.getrandbits(8) for _ in range(32))))
+                r = sx.recv("get", [dg])["result"]
+                if r[0] == "exc" and (not r[2] or r[1] not in DOCUMENTED):
+                    chk.violation("oracle", f"{peer.label}: an encrypted message (msgFlags {flags}) arriving at a session without a privacy key "
+                                  f"ended the call with {r[1]} (panic / undocumented)", {"kind": "oracle", "lines": [sx.line()[:20000]]})
     st.diff("C01 decoders")
     st.coverage(
         "streams: corpus of former crashers; structured-valid (40%) / mutated (40%) / grammar-malformed (20%) "
